@@ -181,5 +181,7 @@ const opdef_t ops_divw[] = {
   {"mpn_divexact_1", op_divexact_1}, {"mpn_divexact_1_ip", op_divexact_1_ip},
   {"mpn_divexact_by3c", op_by3c}, {"mpn_divexact_by3c_ip", op_by3c_ip},
   {"mpn_modexact_1c_odd", op_modexact_1c_odd},
+  /* predicate ops: same calls, the driver evaluates the property on the output instead of comparing with the model */
+  {"modlimb_invert_ok", op_modlimb_invert}, {"mpn_divexact_1_ok", op_divexact_1},
   {0, 0}
 };
